@@ -498,22 +498,22 @@ Qed.
 End AtPath.
 
 (* ---- the location, read off the ancestry ---- *)
-Fixpoint anc_of (cur : node) (l : loc) : list (rval * pyval) :=
+Fixpoint walk_anc (cur : node) (l : loc) : list (rval * pyval) :=
   match l with
   | [] => []
-  | r :: rest => (RNode cur, ref_val r) :: match child cur r with Some ch => anc_of ch rest | None => [] end
+  | r :: rest => (RNode cur, ref_val r) :: match child cur r with Some ch => walk_anc ch rest | None => [] end
   end.
 
-Lemma walk_ctx_anc : forall l c cur n, lookup cur l = Some n -> x_anc (walk_ctx c cur l) = (x_anc c ++ anc_of cur l)%list.
+Lemma walk_ctx_anc : forall l c cur n, lookup cur l = Some n -> x_anc (walk_ctx c cur l) = (x_anc c ++ walk_anc cur l)%list.
 Proof.
-  induction l as [|r rest IH]; intros c cur n H; cbn [walk_ctx anc_of lookup] in *; [rewrite app_nil_r; reflexivity|].
+  induction l as [|r rest IH]; intros c cur n H; cbn [walk_ctx walk_anc lookup] in *; [rewrite app_nil_r; reflexivity|].
   destruct (child cur r) as [ch|] eqn:Ec; [|discriminate H].
   rewrite (IH _ ch n H). cbn [step_ctx x_anc]. rewrite <- app_assoc. reflexivity.
 Qed.
 
-Lemma anc_of_loc : forall l cur n, lookup cur l = Some n -> anc_loc (anc_of cur l) = l.
+Lemma wanc_loc : forall l cur n, lookup cur l = Some n -> anc_loc (walk_anc cur l) = l.
 Proof.
-  induction l as [|r rest IH]; intros cur n H; [reflexivity|]. cbn [lookup anc_of] in *.
+  induction l as [|r rest IH]; intros cur n H; [reflexivity|]. cbn [lookup walk_anc] in *.
   destruct (child cur r) as [ch|] eqn:Ec; [|discriminate H].
   unfold anc_loc in *. cbn [map]. rewrite (IH ch n H). f_equal.
   destruct cur as [i v|i kvs|i els|i els]; destruct r as [k|j|k]; try discriminate Ec; cbn [anc_ref ref_val].
@@ -526,7 +526,7 @@ Lemma pb_coords_anc d l m par rf path anc :
   lookup d l = Some m -> RCoords (RNode m) par rf path anc = pb_coords d l m -> anc_loc anc = l /\ path = build_orig l.
 Proof.
   intros Hl E. unfold pb_coords, coords_of in E. injection E as -> -> -> ->. split.
-  - rewrite (walk_ctx_anc l root_ctx d m Hl). cbn [root_ctx x_anc app]. apply (anc_of_loc l d m Hl).
+  - rewrite (walk_ctx_anc l root_ctx d m Hl). cbn [root_ctx x_anc app]. apply (wanc_loc l d m Hl).
   - rewrite (walk_ctx_tp l root_ctx d m Hl). reflexivity.
 Qed.
 
